@@ -114,6 +114,7 @@ func samWrite(k *K, s *sam.SAM) []byte {
 	if !bytes.Equal(w.Bytes(), m) {
 		k.Failf("write-vs-marshal", "Write and MarshalText differ: %q vs %q", w.Bytes(), m)
 	}
+	writerZoo(k, []func(io.Writer) error{s.Write}, m)
 	txt := w.Bytes()
 	if len(txt) == 0 || txt[len(txt)-1] != '\n' || bytes.Count(txt, []byte("\n")) != 1 || bytes.ContainsRune(txt, '\r') {
 		k.Failf("one-line", "record does not occupy exactly one LF-terminated line: %q", txt)
@@ -161,6 +162,7 @@ func init() {
 			{Name: "fieldlens", TShards: 4, Run: lengthUnit("sam")},
 			{Name: "parallel", Race: true, Run: codecParallel("sam", "samh")},
 			{Name: "histories", Run: codecHistories("sam", "samh")},
+			firstCallUnit(append(firstCodec("sam"), firstCodec("samh")...)),
 		},
 	})
 }
